@@ -14,7 +14,7 @@
  R04.5 read_to_string = file-type guard + open_file + Read::read_to_string into the returned string.
 """
 import os
-from ..terms import get_tracer, short, walk, fmt
+from ..terms import get_tracer, short, walk, fmt, passthrough_of
 from ..pathflow import World
 from ..panics import Discharger, load_records, norm
 from ..handlerules import Handles
@@ -177,7 +177,7 @@ def overlay_read_delegation(facts, rep, w, rule="R04.4o"):
             c = norm(ct)
             if ov.inter.case_polarity(ct) == "err":
                 continue
-            t = peel(c)
+            t = peel(passthrough_of(c))
             good = t[0] == "call" and sname(t[1]) == op and t[2] and ov.is_resolved(t[2][0]) and ov.mentions_path_arg(t[2][0])
             ok = ok and good
         n += 1
@@ -276,7 +276,7 @@ def run(facts, rep, tier, ctx):
     rep.floor("overlay routing obligations", n, 4)
     # what a write session / copy creates through the overlay must be visible afterwards: the path's deletion marker is gone
     from . import c10
-    c10.marker_rules(facts, rep, ws, prefix="R04.4m", only=("R10.3",))
+    c10.marker_rules(facts, rep, ws, prefix="R04.4m", only=("R10.3", "R10.1"))
     n = read_to_string_rules(facts, rep, ws, D)
     rep.floor("read_to_string obligations", n, 2)
     for w4j in (ws, World(facts, True)):
@@ -319,7 +319,7 @@ def run(facts, rep, tier, ctx):
         k += c09.table_u(facts, A, wa, "R04.4u", only=("append_file",))
         k += overlay_read_delegation(facts, A, wa)
         k += c09.resolver_rules(facts, A, wa, "R04.4r")
-        k += c10.marker_rules(facts, A, wa, prefix="R04.4m", only=("R10.3",))
+        k += c10.marker_rules(facts, A, wa, prefix="R04.4m", only=("R10.3", "R10.1"))
         k += read_to_string_rules(facts, A, wa, D)
         ha.read_rules(A, "R04.r")
         ha.seek_rules(A, "R04.r", "R04.r")
